@@ -741,7 +741,122 @@ class EnumGen:
                '}']
         return out, [('prop', 'op_prop')]
 
-    FEATS = {'msg': 'feat_msg', 'prop': 'feat_prop', 'repr': 'feat_repr', 'disc': 'feat_disc', 'parse': 'feat_parse', 'names': 'feat_names', 'roundtrip': 'feat_roundtrip', 'iter': 'feat_iter',
+    def feat_table(self):
+        e = self.e
+        n = e.name
+        en = [v for v in e.variants if not v.dis]
+        TB = '%sTable' % n
+        out = ['fn decl_index(v: &Inst) -> i64 {', '    match v {']
+        for i, v in enumerate(e.variants):
+            out.append('        %s => %d,' % (self.pat_any(v), i))
+        out += ['    }', '}',
+                'fn by_ident(id: &str) -> Inst { mk(id, 0, "").expect("ident") }',
+                'fn op_table(a: &[&str]) -> String {',
+                '    let mut t: %s<i64> = %s::filled(0);' % (TB, TB),
+                '    let mut out: Vec<String> = Vec::new();',
+                '    for tok in &a[1..] {',
+                "        let p: Vec<&str> = tok.split(':').collect();",
+                '        match p[0] {',
+                '            "new" => { t = %s::new(%s); out.push("ok".to_string()); }' % (TB, ', '.join('%di64' % (1000 + i) for i in range(len(en)))),
+                '            "filled" => { t = %s::filled(p[1].parse::<i64>().unwrap()); out.push("ok".to_string()); }' % TB,
+                '            "closure" => { t = %s::from_closure(|k| 100 + 7 * decl_index(&k)); out.push("ok".to_string()); }' % TB,
+                '            "transform" => { t = t.transform(|k, old| old * 3 + decl_index(&k)); out.push("ok".to_string()); }',
+                '            "set" => { t[by_ident(p[1])] = p[2].parse::<i64>().unwrap(); out.push("ok".to_string()); }',
+                '            "get" => out.push(format!("{}", t[by_ident(p[1])])),',
+                '            "dump" => out.push(format!("dump%s", %s)),' % ('/{}' * len(en), ', '.join('t[%s::%s]' % (n, v.ident) for v in en)),
+                '            "all" => { let m = p[1].as_bytes(); let o: %s<Option<i64>> = %s::new(%s); out.push(match o.all() { Some(r) => format!("some%s", %s), None => "none".to_string() }); }'
+                % (TB, TB, ', '.join("if m[%d] == b'1' { Some(t[%s::%s]) } else { None }" % (i, n, v.ident) for i, v in enumerate(en)),
+                   '/{}' * len(en), ', '.join('r[%s::%s]' % (n, v.ident) for v in en)),
+                '            "allok" => { let m = p[1].as_bytes(); let o: %s<Result<i64, i64>> = %s::new(%s); out.push(match o.all_ok() { Ok(r) => format!("ok%s", %s), Err(e) => format!("err/{}", e) }); }'
+                % (TB, TB, ', '.join("if m[%d] == b'1' { Ok(t[%s::%s]) } else { Err(%d) }" % (i, n, v.ident, i) for i, v in enumerate(en)),
+                   '/{}' * len(en), ', '.join('r[%s::%s]' % (n, v.ident) for v in en)),
+                '            _ => out.push("bad-tok".to_string()),',
+                '        }',
+                '    }',
+                '    out.join(" ")',
+                '}',
+                # the table type derives these
+                'fn _table_traits<X: core::fmt::Debug + Clone + Default + PartialEq + Eq + core::hash::Hash>() {} fn _chk_table() { _table_traits::<%s<u8>>(); }' % TB]
+        return out, [('table', 'op_table')]
+
+    def field_code(self, expr, t):
+        dty = field_ty(t, inst=True)
+        return ('(if %s == %s { 1 } else if %s == %s { 2 } else if %s == <%s as Default>::default() { 0 } else { 9 })'
+                % (expr, field_val(t, 1), expr, field_val(t, 2), expr, dty))
+
+    def feat_is(self):
+        e = self.e
+        out = ['fn op_is(a: &[&str]) -> String {',
+               '    let v = match mk(a[1], 1, "") { Some(v) => v, None => return "bad-op".to_string() };',
+               '    let mut names: Vec<&str> = Vec::new();']
+        for name, ident in e.extra.get('is_methods', []):
+            out.append('    if v.%s() { names.push("%s"); }' % (name, hx(name)))
+            out.append('    const _: fn(&Inst) -> bool = Inst::%s;' % name)
+        out += ['    format!("true={}", if names.is_empty() { "-".to_string() } else { names.join(",") })', '}']
+        return out, [('is', 'op_is')]
+
+    def feat_tryas(self):
+        e = self.e
+        byid = {v.ident: v for v in e.variants}
+        out = ['fn op_tryas(a: &[&str]) -> String {',
+               '    let alt: u8 = a[2].parse().unwrap();',
+               '    let v = match mk(a[1], alt, "") { Some(v) => v, None => return "bad-op".to_string() };',
+               '    let mut out: Vec<String> = Vec::new();']
+        for base, ident, n in e.extra.get('tryas_methods', []):
+            v = byid[ident]
+            names = ['y%d' % i for i in range(n)]
+            if n == 0:
+                pat = '()'
+            elif n == 1:
+                pat = names[0]
+            else:
+                pat = '(%s)' % ', '.join(names)
+            def codes(deref):
+                if n == 0:
+                    return '"some".to_string()', '"wrote".to_string()'
+                fmt = '/{}' * n
+                args = ', '.join(self.field_code(('(*%s)' % nm) if deref else nm, t) for nm, t in zip(names, v.ftypes))
+                return 'format!("some%s", %s)' % (fmt, args), 'format!("wrote%s", %s)' % (fmt, args)
+            sv, _ = codes(False)
+            sr, wr = codes(True)
+            out.append('    {')
+            out.append('        let r1 = match v.clone().%s() { Some(%s) => %s, None => "none".to_string() };' % (base, pat, sv))
+            out.append('        let r2 = match v.%s_ref() { Some(%s) => %s, None => "none".to_string() };' % (base, pat, sr))
+            writes = ' '.join('*%s = %s;' % (nm, field_val(t, 2)) for nm, t in zip(names, v.ftypes))
+            out.append('        let mut w = v.clone();')
+            out.append('        let did = match w.%s_mut() { Some(%s) => { %s true } None => false };' % (base, pat, writes))
+            out.append('        let r3 = if did { match w.%s_ref() { Some(%s) => %s, None => "lost".to_string() } } else { "none".to_string() };' % (base, pat, wr))
+            out.append('        out.push(format!("%s:val={}:ref={}:mut={}", r1, r2, r3));' % hx(base))
+            out.append('    }')
+        out += ['    out.join(" ")', '}']
+        return out, [('tryas', 'op_tryas')]
+
+    def feat_absent(self):
+        e = self.e
+        names = e.extra.get('absent_methods', [])
+        out = ['pub struct Absent;',
+               'trait Describe { fn d(&self) -> &\'static str; }',
+               'impl Describe for bool { fn d(&self) -> &\'static str { "present" } }',
+               'impl<X> Describe for Option<X> { fn d(&self) -> &\'static str { "present" } }',
+               'impl Describe for Absent { fn d(&self) -> &\'static str { "absent" } }',
+               'trait Fallback: Sized {']
+        for nm in names:
+            if nm.endswith('_ref') or nm.startswith('is_'):
+                out.append('    fn %s(&self) -> Absent { Absent }' % nm)
+            elif nm.endswith('_mut'):
+                out.append('    fn %s(&mut self) -> Absent { Absent }' % nm)
+            else:
+                out.append('    fn %s(self) -> Absent { Absent }' % nm)
+        out += ['}', 'impl Fallback for Inst {}',
+                'fn op_absent(a: &[&str]) -> String {',
+                '    let mut out: Vec<String> = Vec::new();']
+        first = e.variants[0] if e.variants else None
+        for nm in names:
+            out.append('    { let mut v = mk("%s", 1, "").unwrap(); out.push(format!("%s={}", v.%s().d())); }' % (hx(first.ident), hx(nm), nm))
+        out += ['    out.join(" ")', '}']
+        return out, [('absent', 'op_absent')]
+
+    FEATS = {'table': 'feat_table', 'is': 'feat_is', 'tryas': 'feat_tryas', 'absent': 'feat_absent', 'msg': 'feat_msg', 'prop': 'feat_prop', 'repr': 'feat_repr', 'disc': 'feat_disc', 'parse': 'feat_parse', 'names': 'feat_names', 'roundtrip': 'feat_roundtrip', 'iter': 'feat_iter',
              'count': 'feat_count', 'vnames': 'feat_vnames', 'varray': 'feat_varray'}
 
     def render(self):
@@ -751,7 +866,7 @@ class EnumGen:
             pass
         out += self.enum_item(tuple(e.extra.get('base_derives', ('Debug', 'PartialEq', 'Clone'))))
         out += self.fn_ident_of()
-        if any(f in e.feats for f in ('parse', 'names', 'roundtrip', 'mk', 'iter', 'repr', 'disc', 'msg', 'prop')):
+        if any(f in e.feats for f in ('parse', 'names', 'roundtrip', 'mk', 'iter', 'repr', 'disc', 'msg', 'prop', 'table', 'is', 'tryas', 'absent')):
             out += self.fn_mk()
             out += self.fn_payload()
         ops = []
